@@ -315,10 +315,10 @@ inline void doChange(TC& c, Inst& in, uint8_t sid, uint8_t dest, bool withPayloa
 	w.act(in, withPayload ? ACT_CHANGE_WITH : ACT_CHANGE, dest, sid, tag);
 	w.ownRequest = true; w.ownLogCount = 0;
 #if HAS_PAYLOAD
-	if (withPayload) c.changeWith(static_cast<StateID>(dest), cfg::makePayload(tag));
+	if (withPayload) { const cfg::Payload pl = cfg::makePayload(tag); LIB(c.changeWith(static_cast<StateID>(dest), pl)); }
 	else
 #endif
-		c.changeTo(static_cast<StateID>(dest));
+		LIB(c.changeTo(static_cast<StateID>(dest)));
 	w.ownRequest = false;
 	w.noteRequest(in, sid, dest, withPayload, tag);
 	const Req r = toReq(c.request());
@@ -334,7 +334,7 @@ inline void doCancel(TC& c, Inst& in, uint8_t sid) {
 	World& w = *W;
 	w.act(in, ACT_CANCEL, 255, sid);
 	w.ownCancel = true; w.ownLogCount = 0;
-	c.cancelPendingTransition();
+	LIB(c.cancelPendingTransition());
 	w.ownCancel = false;
 	w.noteCancel(in);
 	w.expectOwnLog(in, LOG_CANCELLED, sid, 255, "cancelPendingTransition");
@@ -346,8 +346,8 @@ inline void doReport(TC& c, Inst& in, uint8_t sid, bool success, uint8_t target,
 	World& w = *W;
 	w.act(in, success ? ACT_SUCCEED : ACT_FAIL, target, sid);
 	w.ownReport = true; w.ownLogCount = 0;
-	if (implicitId) { if (success) c.succeed(); else c.fail(); }
-	else { if (success) c.succeed(static_cast<StateID>(target)); else c.fail(static_cast<StateID>(target)); }
+	if (implicitId) { if (success) LIB(c.succeed()); else LIB(c.fail()); }
+	else { if (success) LIB(c.succeed(static_cast<StateID>(target))); else LIB(c.fail(static_cast<StateID>(target))); }
 	w.ownReport = false;
 	w.noteReport(in, success, target, sid, true);
 	w.expectOwnLog(in, LOG_TASK_STATUS, target, success ? 1 : 0, success ? "succeed" : "fail");
@@ -362,10 +362,10 @@ inline void planAppend(TPlan plan, Inst& in, uint8_t origin, uint8_t dest, bool 
 	w.act(in, expectOk ? ACT_PLAN_APPEND : ACT_PLAN_APPEND_FULL, origin, dest, t.tag);
 	bool ok;
 #if HAS_PAYLOAD
-	if (withPayload) ok = plan.changeWith(static_cast<StateID>(origin), static_cast<StateID>(dest), cfg::makePayload(t.tag));
+	if (withPayload) { const cfg::Payload pl = cfg::makePayload(t.tag); LIB(ok = plan.changeWith(static_cast<StateID>(origin), static_cast<StateID>(dest), pl)); }
 	else
 #endif
-		ok = plan.change(static_cast<StateID>(origin), static_cast<StateID>(dest));
+		LIB(ok = plan.change(static_cast<StateID>(origin), static_cast<StateID>(dest)));
 	if (ok != expectOk)
 		w.V("C10", fmt("append-result|%s|%s", expectOk ? "refused-with-room" : "accepted-when-full", withPayload ? "changeWith" : "change"),
 			fmt("%s: plan holds %zu of %u tasks, append returned %d; %s", where, in.plan.size(), cfg::CAP, int(ok), w.tail().c_str()));
@@ -393,7 +393,7 @@ inline void planRemoveAt(TPlan plan, Inst& in, size_t idx, const char* where) {
 	size_t i = 0;
 	for (auto it = plan.begin(); it; ++it, ++i) {
 		seen.push_back(toTask(*it));
-		if (i == idx) it.remove();
+		if (i == idx) LIB(it.remove());
 		if (i > 300) break;
 	}
 	if (!samePlan(seen, before))
@@ -413,7 +413,7 @@ template <typename TPlan>
 inline void planClear(TPlan plan, Inst& in, const char* where) {
 	World& w = *W;
 	w.act(in, ACT_PLAN_CLEAR);
-	plan.clear();
+	LIB(plan.clear());
 	w.notePlanClear(in);
 	const PlanVec now = readPlan(plan);
 	if (!now.empty()) w.V("C10", "plan-not-empty-after-clear", fmt("%s: plan iterates as %s after clear()", where, planStr(now).c_str()));
